@@ -247,6 +247,8 @@ def ld_cases(rng, tier):
     ix = {n: t['sys_names'].index(n) for n in ('cpsr', 'sctlr', 'ttbcr', 'ttbr0_64', 'ttbr1_64', 'fcseidr', 'mair0', 'mair1', 'dfsr',
                                                'dfar', 'scr')}
     made = 0
+    # the first cases of the stream are directed, one (attribute, level) combination after the other, several rounds
+    plan = [(bb, ll) for _ in range(3 if tier == 'quick' else 40) for bb in (63, 62, 61, 60, 59) for ll in (1, 2)]
     while made < n_cases:
         cfgd = copy.deepcopy(statelib.DEFAULT_CFG)
         cfgd['memory_system_architecture'] = 'VMSA'
@@ -255,6 +257,9 @@ def ld_cases(rng, tier):
         cfgd['have_security_ext'] = rng.random() < 0.8
         t0 = rng.choice([0, 0, 1, 2, 3, 5, 7])
         t1 = rng.choice([0, 0, 1, 2, 4, 7])
+        planned = made < len(plan)
+        if planned:
+            t0, t1 = rng.choice([(0, 0), (1, 0), (0, 1), (1, 1)])      # a three-level walk: the region starts at level 1
         va = rng.getrandbits(32)
         r = rng.random()
         if r < 0.3 and t0:
@@ -270,9 +275,8 @@ def ld_cases(rng, tier):
         # directed part of the stream: full-depth walks whose leaf permits everything and in which exactly one hierarchical
         # attribute (NSTable, APTable[1], APTable[0], XNTable, PXNTable) is set in exactly one table descriptor, so that an
         # attribute dropped between levels shows in the permission check or the NS bit of the result
-        directed = rng.random() < 0.4
-        hier_bit = rng.choice([63, 62, 62, 61, 61, 60, 59])
-        hier_level = rng.choice([1, 2])
+        directed = planned or rng.random() < 0.3
+        hier_bit, hier_level = plan[made] if planned else (rng.choice([63, 62, 62, 61, 61, 60, 59]), rng.choice([1, 2]))
         if in1 or in0:
             sz, ttbr = (t1, ttbr1) if in1 else (t0, ttbr0)
             level = 1 if sz < 2 else 2
